@@ -47,7 +47,9 @@ PROPERTIES = {
                       # two writers through one shared interior node: height-1 base, two trees re-loaded through the cache, inserts only
                       H("HarnessC02a", b(N=3, K1=2, CACHE=1, PERSISTFIRST=1, HREQ=1, TMASK=12, INSERTONLY=1, LPAT=3), sample_every=500),
                       # a base that was never persisted (all nodes in memory and dirty at the first clone): the original and the clone of the clone are modified
-                      H("HarnessC02a", b(N=3, K1=1, CACHE=0, PERSISTFIRST=0, HREQ=-1, TMASK=3), sample_every=100)],
+                      H("HarnessC02a", b(N=3, K1=1, CACHE=0, PERSISTFIRST=0, HREQ=-1, TMASK=3), sample_every=100)] +
+                     # the v1marshaler decode paths after a restart (the cache fills with decoded nodes)
+                     [H("HarnessC02a", b(N=3, K1=1, CACHE=1, PERSISTFIRST=1, FRESHCACHE=1, HREQ=-1, TMASK=12, FMT=f), sample_every=200) for f in (1, 2)],
             "thorough": [H("HarnessC02a", b(N=3, K1=1, CACHE=c, PERSISTFIRST=p, HREQ=-1, TMASK=15), sample_every=500) for c in (0, 1, 2) for p in (0, 1)] +
                         [H("HarnessC02a", b(N=2, K1=2, CACHE=1, PERSISTFIRST=1, HREQ=-1, TMASK=15), sample_every=2000)],
         },
